@@ -85,7 +85,8 @@ Consume(e) ==
          [] e.op.suite = "components" -> Report(e, "components", ComponentsChecks(g, e.a))
          [] e.op.suite = "cluster" -> Report(e, "cluster", ClusterChecks(g, e.a))
          [] e.op.suite = "partitions" -> Report(e, "partitions", PartitionChecks(g, e.a))
-         [] e.op.suite = "eigen" -> (g.specs.multi \/ Report(e, "eigen", EigenChecks(g, e.a)))   \* C18 speaks of single-edge graphs
+         [] e.op.suite = "eigen" -> IF g.specs.multi THEN TRUE     \* C18 speaks of single-edge graphs
+                                    ELSE Report(e, "eigen", EigenChecks(g, e.a))
          [] e.op.suite = "api" -> Report(e, "api", ApiChecks(g, e.a))
          [] e.op.suite = "louvain" -> /\ Report(e, "louvain", LouvainChecks(g, e.a))
                                       /\ Report(e, "louvain_mech", MechChecks(g, e.a))
